@@ -99,7 +99,7 @@ class Check(object):
         return False
 
     def e2(self, name, fn, bounds=None, max_wall_s=None, chunk_paths=300, expect_nontrivial=True,
-           stop_on_violation=True):
+           stop_on_violation=False):
         if self._skip(name):
             return None
         t = time.time()
